@@ -36,7 +36,8 @@ namespace ref
       U8ANY, U8ONE, U8RANGE, U8NOTONE,
       UNSIGNED_RULE, SIGNED_RULE, MAXIMUM_RULE,   // a0/a1: maximum (hi/lo 32 bit), a2: bits of the type
       REP_ONE_MIN_MAX,                            // a0 min, a1 max, arg = set
-      U8_ONE_BYTEWISE
+      U8_ONE_BYTEWISE,
+      RAWSTRING                                   // arg = Open, Marker, Close: Lua long bracket
    };
 
    struct node
@@ -296,6 +297,25 @@ namespace ref
                while( q < e && x.arg.find( in[ q ] ) != std::string_view::npos ) ++q;
                const std::size_t cnt = q - p;
                return ( cnt >= std::size_t( x.a0 ) && cnt <= std::size_t( x.a1 ) ) ? ok( q ) : fail( p );
+            }
+            case RAWSTRING: {
+               const char open = x.arg[ 0 ], marker = x.arg[ 1 ], close = x.arg[ 2 ];
+               std::size_t q = p;
+               if( q >= e || in[ q ] != open ) return fail( p );
+               ++q;
+               std::size_t level = 0;
+               while( q < e && in[ q ] == marker ) { ++q; ++level; }
+               if( q >= e || in[ q ] != open ) return fail( p );
+               ++q;
+               q += match_eol( q, e );
+               for( std::size_t i = q; i + level + 2 <= e; ++i ) {
+                  if( in[ i ] != close || in[ i + level + 1 ] != close ) continue;
+                  bool all = true;
+                  for( std::size_t k = 0; k < level; ++k )
+                     if( in[ i + 1 + k ] != marker ) { all = false; break; }
+                  if( all ) return ok( i + level + 2 );
+               }
+               return fail( p );
             }
             case UNSIGNED_RULE: case SIGNED_RULE: case MAXIMUM_RULE: {
                std::size_t q = p;
